@@ -30,6 +30,8 @@ EXTENDS Integers, Sequences, SequencesExt, FiniteSets, TLC, Rat, Emit
 CONSTANTS Mode,       \* "adaptive" | "model" | "constant" | "newton"
           Grid,       \* 1 = quick parameter grid, 2 = thorough
           MaxCalls,   \* adaptive: bound on stepper calls per behaviour; model: runaway guard
+          NumBound,   \* > 0 (random deep behaviours): stop extending a behaviour once t or tau needs a numerator
+                      \* or denominator above this bound (TLC integers are 32 bit); 0 = no such cut
           DoEmit
 
 VARIABLES pc,    \* control state
@@ -56,7 +58,7 @@ RCeil(a) == -((-a[1]) \div a[2])          \* ceiling of a rational (\div rounds 
 
 \* q-th roots of the error ratios the adversary may present; "zero" is r = 0, "fail" a Newton failure
 Roots == IF Grid = 1
-         THEN {Q(1, 8), Q(1, 2), One, Q(17, 16), R(2), R(8)}
+         THEN {Q(1, 8), Q(1, 2), One, R(2), R(8)}
          ELSE {Q(1, 64), Q(1, 8), Q(1, 2), One, Q(17, 16), R(2), R(8), R(64)}
 Alphabet == {[k |-> "r", s |-> s] : s \in Roots} \cup {[k |-> "zero", s |-> Zero], [k |-> "fail", s |-> Zero]}
 
@@ -80,10 +82,13 @@ RatioOf(e, q)  == PowR(e.s, q)
 Accepts(e, q)  == e.k = "zero" \/ (e.k = "r" /\ LeS(RatioOf(e, q), One))
 Factor(e, sf)  == IF e.k = "zero" THEN Five ELSE MinS(Five, MaxS(Fifth, Div(sf, e.s)))
 
+Small(x) == NumBound = 0 \/ (x[1] <= NumBound /\ -x[1] <= NumBound /\ x[2] <= NumBound)
+
 Try(e) ==
   /\ pc = "loop"
   /\ LtS(st.t, par.tend)                       \* while t < t_end
   /\ st.ncalls < MaxCalls
+  /\ Small(st.t) /\ Small(st.tau)
   /\ LET acc  == Accepts(e, par.q)
          tnew == IF acc THEN Add(st.t, st.tau) ELSE st.t
          taun == IF e.k = "fail" THEN Mul(st.tau, Half) ELSE Mul(st.tau, Factor(e, par.sf))
